@@ -439,6 +439,35 @@ def run_c02(prop, tier):
                     break
             ctx.add(states=len(fillseen), transitions=runs, evaluations=runs, traces_validated_against_impl=runs)
             ctx.part("proto-B%d" % B, fill_levels=len(fillseen), runs=runs)
+        # equal clocks are legal ("non-decreasing"): runs of events sharing one clock, across flushes too
+        exe = build_driver(build, 97)
+        base = scratch.sub("eq")
+        # (no flush may fall between the events that share a clock: the flush markers carry later clocks)
+        eqjobs = [["e0", "q0"], ["e16", "q16", "q0"], ["q0", "q2", "q3"], ["q16", "q0"], ["e2", "q2", "q2", "q2"]]
+        # and short writes on conformant programs (the environment may return short counts at any write)
+        swjobs = []
+        for prog in (["e16", "e16", "e16", "e0"], ["j60", "e0"], ["e0", "f", "e16"]):
+            for idx in range(0, 5):
+                for ln in (1, 7):
+                    swjobs.append((prog, "%d:%d" % (idx, ln)))
+
+        def one_eq(j):
+            prog, sh = j
+            cd = os.path.join(base, "c%d" % os.getpid())
+            rc, err, log = run_case(exe, cd, proto(prog), sh)
+            msg = oracle(cd, log, rc, err)
+            emsg = emu(cd) if msg is None else None
+            return msg, emsg
+        alljobs = [(p, "-") for p in eqjobs] + swjobs
+        for (prog, sh), (msg, emsg) in zip(alljobs, pmap(one_eq, alljobs)):
+            ctx.add(evaluations=1, transitions=len(prog) + 2, traces_validated_against_impl=1)
+            if msg == "ABORTED":
+                continue
+            if msg is not None or emsg is not None:
+                ctx.violation("B=97 conformant program %s%s: %s" % (proto(prog), "" if sh == "-" else " with short write " + sh, msg or emsg),
+                              {"engine": "E1 rt_driver", "bufsz": 97, "program": proto(prog), "short": sh, "oracle": "C02"},
+                              {"kind": "equal-clocks" if sh == "-" else "short-write"})
+        ctx.part("equal-clocks-and-short-writes", runs=len(alljobs))
         # real capacity: (fill before the jumbo) x (jumbo size) where a forced flush happens and the room
         # left afterwards is in [1, 64]
         exe = build_driver(build, None)
